@@ -4,7 +4,6 @@ import (
 	"fmt"
 	"go/ast"
 	"go/token"
-	"os"
 	"strings"
 )
 
@@ -36,7 +35,7 @@ func RuleLockstep(r *Report, p *Prog, pkg, fileSuffix, fieldA, fieldB string, mi
 		return
 	}
 	tf := p.Fset.File(file.Pos())
-	src, err := os.ReadFile(tf.Name())
+	src, err := p.Source(tf.Name())
 	if err != nil {
 		r.Bad("anchor", pkg+"/"+fileSuffix, "unreadable", "-", err.Error())
 		return
